@@ -379,6 +379,24 @@ func Run(r *fw.Run) {
 			jobs = append(jobs, job{goodMod, goodVers, []ent{e}}, job{goodMod, goodVers, []ent{mk(prefixes[0] + "a.go"), e}}, job{goodMod, goodVers, []ent{e, mk(prefixes[0] + "N")}})
 		}
 	}
+	// directories whose names are string prefixes of each other, in every order, with a collision on the
+	// shorter one (another case, or the same name as a file)
+	{
+		mini := []string{"tool-x/a.go", "tool.d/a.go", "toolbox/a.go", "tool/b.go", "Tool/c.go", "tool", "TOOL/sub/d.go", "tool/sub/e.go"}
+		for i := range mini {
+			for j := range mini {
+				if i == j {
+					continue
+				}
+				jobs = append(jobs, job{goodMod, goodVers, []ent{mk(prefixes[0] + mini[i]), mk(prefixes[0] + mini[j])}})
+				for k := range mini {
+					if k != i && k != j {
+						jobs = append(jobs, job{goodMod, goodVers, []ent{mk(prefixes[0] + mini[i]), mk(prefixes[0] + mini[j]), mk(prefixes[0] + mini[k])}})
+					}
+				}
+			}
+		}
+	}
 	// mode bits in entry headers
 	for _, md := range []string{"dir", "symlink", "exec", "device"} {
 		for _, n := range []string{"a.go", "go.mod", "sub/x.go", "d/", "LICENSE"} {
